@@ -38,6 +38,12 @@ def plan(ctx):
         q = (m["rate"], m["k"], m["r"], m["om"], m["rm"]) in quick
         tiers = ("quick", "thorough") if q else ("thorough",)
         stubs = [FILL_STUB] if m.get("stub") else []
+        if m["kind"] == "dec_additive":
+            hs.append(Harness(f"gen::c01g::{m['name']}", "C01",
+                              f"real {R}RateDecoder<SpecEngine> ({m['k']},{m['r']}), given originals {m['om']:b} + recovery {m['rm']:b}: restore(a) ^ restore(b) == restore(a^b) for two fully symbolic data sets (decode is additive for this pattern: basis form => all data)",
+                              encodes=dec_encodes(R), bounds="2-byte shards; this pattern; three decodes; unwind 66", timeout=5400, mem_gb=12, stubs=stubs,
+                              symbolic="two full data sets", tiers=("thorough",)))
+            continue
         if m["kind"] == "dec_basis":
             hs.append(Harness(f"gen::c01g::{m['name']}", "C01",
                               f"real {R}RateDecoder<SpecEngine> ({m['k']},{m['r']}), given originals mask {m['om']:b} + recovery mask {m['rm']:b} (recovery = G*x from the closed form): original {m['p']} = symbolic x, others 0 => decode Ok, exactly the missing originals are returned, each 2 bytes, byte-identical to the data",
@@ -51,7 +57,7 @@ def plan(ctx):
     return Plan(hs,
                 assumptions=["SpecEngine = executable engine contract incl. the eval_poly contract (locator logs for positions < 16; marks beyond position 16 uniform, probed at 3 fixed positions); real engines refine it: C15/C03 (eval_poly's own body is NOT decided, DESIGN 6/C15)",
                              "given recovery shards are G*x with G the closed form of C02 (so encode+decode round trip = C02 + this)",
-                             "basis form + additivity of decode for a fixed pattern (linear network over GF(2)) => all data",
+                             "basis form + additivity of decode for a fixed pattern => all data; additivity is decided for 7 configuration/pattern pairs in the thorough tier (dec_additive_*), elsewhere it is an assumption",
                              "low rate: [T]::fill longer than 64 elements replaced by a ghost-range model (CBMC cannot unwind the 65k-iteration fill)"],
                 outside=["work size > 8", "patterns not enumerated for k+r > 5 (maximal-loss + surplus patterns only)", "shard sizes other than 2 bytes (C04)",
                          "default-rate codec rounds (enum payload defeats CBMC constant propagation: >15 min for a (2,1) round; its delegation is C09)"],
